@@ -6,7 +6,7 @@ namespace Hive.KV.Conc
 open Hive.Conc
 
 theorem compile_head_not_eff (op : COp) (a : DOp) (rest : List Instr) : compile op ≠ .eff a :: rest := by
-  cases op <;> simp [compile, readCode, writeCode, iterCode]
+  cases op <;> simp [compile, readCode, writeCode, iterCode, flagCode, batchCode]
 
 theorem pendingEff_at_eff {t : Thread} (ht : TInv t) {a : DOp} {rest : List Instr} (hcode : t.code = .eff a :: rest) :
     pendingEff t := by
